@@ -45,7 +45,12 @@ class SciPySolver:
         return self.solve(A, b)
 
     def clear(self):
-        pass
+        """
+        Drop the cached factorization (a C object that cannot be pickled) and
+        request a new one on the next call.
+        """
+        self.lu = None
+        self.factorize = True
 
 
 class SpSolve(SciPySolver):
